@@ -66,6 +66,17 @@ func main() {
 			*workers = 16
 		}
 	}
+	if mp := os.Getenv("GOSYM_MEMPROF"); mp != "" {
+		go func() {
+			for {
+				time.Sleep(60 * time.Second)
+				if f, err := os.Create(mp); err == nil {
+					pprof.WriteHeapProfile(f)
+					f.Close()
+				}
+			}
+		}()
+	}
 	if *cpuProf != "" {
 		f, _ := os.Create(*cpuProf)
 		pprof.StartCPUProfile(f)
